@@ -13,6 +13,7 @@ import (
 	"ocivet/internal/bounds"
 	"ocivet/internal/core"
 	"ocivet/internal/facts"
+	"ocivet/internal/load"
 )
 
 // serverModel is the dispatch structure of ociserver read from the tree.
@@ -265,11 +266,12 @@ func regexpPattern(c *core.Ctx, v ssa.Value) (string, bool) {
 	if !ok {
 		return "", false
 	}
-	init, okInit := onceInitOf(g)
+	init0, okInit := onceInitOf(g)
 	if !okInit {
 		return "", false
 	}
-	if facts.CalleeName(&init.Call) != "sync.OnceValue" || len(init.Call.Args) != 1 {
+	init, bind, okOnce := onceCallOf(init0)
+	if !okOnce || facts.CalleeName(&init.Call) != "sync.OnceValue" || len(init.Call.Args) != 1 {
 		return "", false
 	}
 	lit := resolveThunk(facts.Resolve(init.Call.Args[0]))
@@ -284,12 +286,57 @@ func regexpPattern(c *core.Ctx, v ssa.Value) (string, bool) {
 		}
 		p, ok := regexpPattern(c, r.Results[0])
 		if !ok {
+			// regexp.MustCompile(expr) where expr is the parameter of the wrapping
+			// constructor (`func lazyRegexp(expr string) func() *regexp.Regexp`)
+			if call, isCall := facts.Resolve(r.Results[0]).(*ssa.Call); isCall && facts.CalleeName(&call.Call) == "regexp.MustCompile" {
+				if prm, isP := facts.ResolveFree(call.Call.Args[0]).(*ssa.Parameter); isP {
+					if a, has := bind[prm]; has {
+						p, ok = facts.ConstString(a)
+					}
+				}
+			}
+		}
+		if !ok {
 			return "", false
 		}
 		pat = p
 		n++
 	}
 	return pat, n == 1
+}
+
+// onceCallOf: init is a call of sync.OnceValue/OnceFunc/OnceValues, or of a
+// module function every return of which is such a call (a small constructor
+// like lazyRegexp); returns that call and the binding of the constructor's
+// parameters to init's arguments.
+func onceCallOf(init *ssa.Call) (*ssa.Call, map[*ssa.Parameter]ssa.Value, bool) {
+	isOnce := func(n string) bool { return n == "sync.OnceValue" || n == "sync.OnceFunc" || n == "sync.OnceValues" }
+	if isOnce(facts.CalleeName(&init.Call)) {
+		return init, map[*ssa.Parameter]ssa.Value{}, true
+	}
+	h := init.Call.StaticCallee()
+	if h == nil || h.Blocks == nil || !load.InModule(h) || len(h.Params) != len(init.Call.Args) {
+		return nil, nil, false
+	}
+	var inner *ssa.Call
+	for _, r := range returnsOf(h) {
+		if len(r.Results) != 1 {
+			return nil, nil, false
+		}
+		call, ok := facts.Resolve(r.Results[0]).(*ssa.Call)
+		if !ok || !isOnce(facts.CalleeName(&call.Call)) || (inner != nil && inner != call) {
+			return nil, nil, false
+		}
+		inner = call
+	}
+	if inner == nil {
+		return nil, nil, false
+	}
+	bind := map[*ssa.Parameter]ssa.Value{}
+	for i, p := range h.Params {
+		bind[p] = init.Call.Args[i]
+	}
+	return inner, bind, true
 }
 
 // onceInitOf: the unique store to package-level var g (in its package's init) and
